@@ -3,10 +3,10 @@ CONSTANTS
   Names <- MCNames
   MaxSteps = 6
   FIX_CLOSE = TRUE
-  USER_NESTS = TRUE
+  USER_NESTS = FALSE
   USER_REMOVES_ENTRIES = FALSE
-  USER_RENAMES = FALSE
+  USER_RENAMES = TRUE
   RECHECK_ON_RENAME = FALSE
   FIX_BYUSER = TRUE
-INVARIANTS FdsMatch ListOK AllGone Released CreateOnce
+INVARIANTS FdsMatch ListOK AllGone Released CreateOnce Covered
 CHECK_DEADLOCK FALSE
